@@ -33,7 +33,9 @@ func StartsWith(ctx *expr.Context, input system.Collection, args ...expr.Express
 	output, err := args[0].Evaluate(ctx, input)
 	if err != nil {
 		return nil, err
-	} else if length := len(output); length != 1 {
+	} else if length := len(output); length == 0 {
+		return system.Collection{}, nil // an empty argument gives an empty result
+	} else if length != 1 {
 		return nil, fmt.Errorf("%w: received %v arguments, expected 1", ErrWrongArity, length)
 	}
 	prefix, err := output.ToString()
@@ -65,7 +67,9 @@ func EndsWith(ctx *expr.Context, input system.Collection, args ...expr.Expressio
 	output, err := args[0].Evaluate(ctx, input)
 	if err != nil {
 		return nil, err
-	} else if length := len(output); length != 1 {
+	} else if length := len(output); length == 0 {
+		return system.Collection{}, nil // an empty argument gives an empty result
+	} else if length != 1 {
 		return nil, fmt.Errorf("%w: received %v arguments, expected 1", ErrWrongArity, length)
 	}
 	suffix, err := output.ToString()
@@ -160,7 +164,9 @@ func Contains(ctx *expr.Context, input system.Collection, args ...expr.Expressio
 	output, err := args[0].Evaluate(ctx, input)
 	if err != nil {
 		return nil, err
-	} else if length := len(output); length != 1 {
+	} else if length := len(output); length == 0 {
+		return system.Collection{}, nil // an empty argument gives an empty result
+	} else if length != 1 {
 		return nil, fmt.Errorf("%w: received %v arguments, expected 1", ErrWrongArity, length)
 	}
 	substring, err := output.ToString()
@@ -219,7 +225,9 @@ func Substring(ctx *expr.Context, input system.Collection, args ...expr.Expressi
 	startOutput, err := args[0].Evaluate(ctx, input)
 	if err != nil {
 		return nil, err
-	} else if length := len(startOutput); length != 1 {
+	} else if length := len(startOutput); length == 0 {
+		return system.Collection{}, nil // an empty argument gives an empty result
+	} else if length != 1 {
 		return nil, fmt.Errorf("%w: received %v arguments, expected 1", ErrWrongArity, length)
 	}
 	start, err := startOutput.ToInt32()
@@ -237,7 +245,9 @@ func Substring(ctx *expr.Context, input system.Collection, args ...expr.Expressi
 		lengthOutput, err := args[1].Evaluate(ctx, input)
 		if err != nil {
 			return nil, err
-		} else if length := len(lengthOutput); length != 1 {
+		} else if length := len(lengthOutput); length == 0 {
+			return system.Collection{}, nil // an empty argument gives an empty result
+		} else if length != 1 {
 			return nil, fmt.Errorf("%w: received %v arguments, expected 1", ErrWrongArity, length)
 		}
 		substringLength, err = lengthOutput.ToInt32()
